@@ -37,6 +37,9 @@ func main() {
 		if part("controlled") {
 			runControlled(cfg, res, rng)
 		}
+		if part("discover") {
+			runDiscover(cfg, res, rng)
+		}
 		if part("lazy") {
 			runLazy(cfg, res, rng)
 		}
@@ -81,6 +84,9 @@ func dcheck(c caseT, rr *runResult) []verdict {
 	if rr.Deadlock {
 		return []verdict{{"no-deadlock", "every unfinished goroutine is blocked on a mutex", nil}}
 	}
+	if rr.Abandoned != "" {
+		return nil // (no deadlock, and no results to judge: see runJobs)
+	}
 	w := rr.World
 	// 1. no crash
 	for t, th := range rr.Results {
@@ -116,6 +122,23 @@ func dcheck(c caseT, rr *runResult) []verdict {
 				vs = append(vs, verdict{"agreement", fmt.Sprintf("Load(l%d,%s) returned v%d to one goroutine and v%d to another", o.L, nameTab[o.N], old, r.Val), nil})
 			} else if !ok {
 				seen[k] = r.Val
+			}
+		}
+	}
+	// 3b. agreement among the definers: the Define operations on one name in one loader that were accepted were all handed
+	// the one value that is bound to the name (two different definitions are never both accepted)
+	defd := map[ln]int{}
+	for t, th := range rr.Results {
+		for i, r := range th {
+			o := c.Prog[t][i]
+			if o.Kind != "Define" || r.Kind != "defined" {
+				continue
+			}
+			k := ln{o.L, o.N}
+			if old, ok := defd[k]; ok && old != r.Val {
+				vs = append(vs, verdict{"agreement", fmt.Sprintf("two definitions of %s in l%d were both accepted: one goroutine was told that v%d is bound, another that v%d is", nameTab[o.N], o.L, old, r.Val), nil})
+			} else if !ok {
+				defd[k] = r.Val
 			}
 		}
 	}
@@ -161,6 +184,30 @@ func dcheck(c caseT, rr *runResult) []verdict {
 				if len(wild) > 0 && (matchesModulo(set, rr.Results, wild) || (changed && matchesModulo(set, fixed, wild))) {
 					v.tags = []string{"shadowed-name-race"}
 					v.what = "a Load combined an ancestor's 'nothing yet' with a later binding in a descendant (the name is bound in two loaders of the chain): " + v.what
+				}
+				// known finding: parentedLoader.Discover walks the ancestors first and then offers its own names except those
+				// that the parent has by then.  A name that the program binds in TWO loaders of the chain - in the descendant
+				// first - is in neither part when the ancestor receives it in between.  Matched only if the Discover is
+				// interested in such a name and every other result is exactly that of a sequential order.
+				if v.tags == nil {
+					wildD := map[[2]int]bool{}
+					for t, th := range rr.Results {
+						for i, r := range th {
+							o := c.Prog[t][i]
+							if o.Kind != "Discover" || r.Kind != "names" {
+								continue
+							}
+							for _, n := range o.Ns {
+								if !singleDefiner(c, w, o.L, n) {
+									wildD[[2]int{t, i}] = true
+								}
+							}
+						}
+					}
+					if len(wildD) > 0 && matchesModulo(set, rr.Results, wildD) {
+						v.tags = []string{"discover-shadowed-name"}
+						v.what = "a Discover did not return a name that is bound in two loaders of the chain (the descendant offered it after the ancestor had got it too): " + v.what
+					}
 				}
 			}
 			vs = append(vs, v)
@@ -289,6 +336,14 @@ func corpus() []caseT {
 		{Cfg: f[0], Prog: pr(th(df(1, 0, 0), ld(1, 0)), th(df(1, 0, 1), ld(1, 0))), Note: "two definitions"},
 		{Cfg: f[0], Prog: pr(th(df(1, 0, 4), ld(1, 0)), th(df(1, 0, 5), ld(1, 0))), Note: "two equal definitions"},
 		{Cfg: f[0], Prog: pr(th(ld(1, 0), hs(1, 0)), th(ld(1, 0), df(1, 0, 0))), Note: "two misses"},
+		// a name that holds a cached miss is defined by two goroutines
+		{Cfg: f[0], Prog: pr(th(ld(1, 0), df(1, 0, 0)), th(df(1, 0, 1))), Note: "miss, then two different definitions"},
+		{Cfg: f[0], Prog: pr(th(ld(1, 0)), th(df(1, 0, 0), ld(1, 0)), th(df(1, 0, 1), ld(1, 0))), Note: "miss while two different definitions are made"},
+		{Cfg: f[0], Prog: pr(th(ld(1, 0), df(1, 0, 4), ld(1, 0)), th(df(1, 0, 6), ld(1, 0))), Note: "miss, then two definitions of different classes"},
+		{Cfg: f[0], Prog: pr(th(ld(1, 0), df(1, 0, 4)), th(df(1, 0, 5)), th(df(1, 0, 1))), Note: "miss, then two equal definitions and a different one"},
+		{Cfg: f[1], Prog: pr(th(ld(2, 0), df(1, 0, 0)), th(df(1, 0, 1), hs(2, 0))), Note: "the miss is cached in the child, the parent is defined twice"},
+		{Cfg: f[1], Prog: pr(th(ld(2, 0), df(2, 0, 0)), th(ld(2, 0), df(2, 0, 1))), Note: "two misses, then two different definitions"},
+		{Cfg: f[2], Prog: pr(th(ld(1, 1), df(1, 1, 0)), th(df(1, 1, 1), ld(1, 1))), Note: "file loader, the miss of a name without file is cached, then two definitions"},
 		{Cfg: f[1], Prog: pr(th(ld(2, 0), ld(2, 0)), th(df(1, 0, 0)), th(df(2, 0, 1))), Note: "define in parent and child"},
 		{Cfg: f[1], Prog: pr(th(ld(2, 0), hs(2, 0)), th(df(1, 0, 0), ld(1, 0)))},
 		{Cfg: f[1], Prog: pr(th(ld(2, 0)), th(hs(2, 0), df(1, 0, 4)), th(hs(1, 0), df(2, 0, 1))), Note: "name bound in parent and child while a load is between the two"},
@@ -343,6 +398,37 @@ func randomProgram(r *lib.Rng, nThreads, maxOps int) caseT {
 	return caseT{Cfg: cfg, Prog: prog}
 }
 
+// missDefineProgram: a name is asked for before it is defined (the loader caches the miss), then two or three goroutines
+// define it, with different or equal values, and look at it
+func missDefineProgram(r *lib.Rng) caseT {
+	fams := cfgFamilies()
+	cfg := fams[[]int{0, 1, 2, 3, 5}[r.Intn(5)]]
+	l := 1 + r.Intn(len(cfg)-1)
+	n := 0
+	if cfg[l].File {
+		n = 1 // (a name without file)
+	}
+	via := l
+	if r.Intn(3) == 0 {
+		via = 1 + r.Intn(len(cfg)-1) // the miss is cached through another loader
+	}
+	nT := 2 + r.Intn(2)
+	prog := make([][]opT, nT)
+	vals := []int{0, 1, 4, 5, 6}
+	for t := range prog {
+		if t == 0 || r.Intn(3) == 0 {
+			prog[t] = append(prog[t], ld(via, n))
+		}
+		if t < 2 || r.Intn(2) == 0 {
+			prog[t] = append(prog[t], df(l, n, vals[r.Intn(len(vals))]))
+		}
+		if len(prog[t]) == 0 || (r.Intn(2) == 0 && len(prog[t]) < 2) {
+			prog[t] = append(prog[t], ld(l, n))
+		}
+	}
+	return caseT{Cfg: cfg, Prog: prog}
+}
+
 // ---- exploration -------------------------------------------------------------------------------------------
 
 type explorer struct {
@@ -354,6 +440,7 @@ type explorer struct {
 	coqCases int
 	coqMax   int
 	baseline map[string]string
+	emit     func(c caseT, rr *runResult) // when set: hands a run to the model (instead of the cases of Conc.v)
 }
 
 func (e *explorer) casesFile() *lib.CasesFile {
@@ -402,7 +489,10 @@ func (e *explorer) visit(c caseT, rr *runResult, family string, forceCoq bool) {
 		base = runSequential(c, order)
 		e.baseline[key] = base
 	}
-	if rr.Hang == "" && !rr.Deadlock {
+	if rr.Abandoned != "" {
+		e.res.Count("runs.abandoned")
+	}
+	if rr.Hang == "" && !rr.Deadlock && rr.Abandoned == "" {
 		if outcomeKey(rr.Results) != base || blocked || overl {
 			e.res.Nontrivial(key + fmt.Sprint(rr.Sched))
 			e.res.Count("nontrivial")
@@ -412,9 +502,13 @@ func (e *explorer) visit(c caseT, rr *runResult, family string, forceCoq bool) {
 		}
 		toCoq := forceCoq || (len(vs) > 0 && e.coqCases < 20+e.coqMax) || e.nRuns%e.coqEvery == 0
 		if toCoq && e.coqCases < e.coqMax+20 {
-			f := e.files[e.coqCases%len(e.files)]
-			f.Add(gCase(c, rr), c.input(rr.Sched))
-			e.coqCases++
+			if e.emit != nil {
+				e.emit(c, rr)
+			} else {
+				f := e.files[e.coqCases%len(e.files)]
+				f.Add(gCase(c, rr), c.input(rr.Sched))
+				e.coqCases++
+			}
 		}
 	}
 	if e.nRuns%1499 == 1 {
@@ -436,7 +530,7 @@ func (e *explorer) exploreAll(c caseT, limit int, family string) (runs int, comp
 		rr := runSchedule(c.Cfg, c.Prog, prefixPolicy(prefix))
 		runs++
 		e.visit(c, rr, family, false)
-		if rr.Hang != "" || rr.Deadlock {
+		if rr.Hang != "" || rr.Deadlock || rr.Abandoned != "" {
 			unfinished++ // (reported by visit; two such runs are enough for one program)
 			continue
 		}
@@ -496,6 +590,10 @@ func noisyPolicy(r *lib.Rng, nThreads, length int) policy {
 func runControlled(cfg *lib.Config, res *lib.Result, rng *lib.Rng) {
 	e := &explorer{cfg: cfg, res: res, baseline: map[string]string{}}
 	nFiles, perProgram, nRandom2, nRandom3, nRandom4, pct4 := 2, 1500, 40, 14, 60, 12
+	nMiss := 12
+	if cfg.Thorough() {
+		nMiss = 120
+	}
 	e.coqMax = 1600
 	e.coqEvery = 9
 	if cfg.Thorough() {
@@ -538,6 +636,9 @@ func runControlled(cfg *lib.Config, res *lib.Result, rng *lib.Rng) {
 	}
 	for i := 0; i < nRandom2; i++ {
 		explore(randomProgram(rng.Fork(), 2, 3), "2x3")
+	}
+	for i := 0; i < nMiss; i++ {
+		explore(missDefineProgram(rng.Fork()), "miss-define")
 	}
 	for i := 0; i < nRandom3; i++ {
 		explore(randomProgram(rng.Fork(), 3, 2), "3x2")
@@ -608,7 +709,27 @@ func replay(cfg *lib.Config, res *lib.Result) {
 					fmt.Printf("(%d sequential outcomes)\n", len(ks))
 				}
 			}
-			e.visit(c, rr, "replay", true)
+			hasDisc := false
+			for _, th := range c.Prog {
+				for _, o := range th {
+					hasDisc = hasDisc || o.Kind == "Discover"
+				}
+			}
+			if hasDisc {
+				df := discCasesFile()
+				e.emit = func(c caseT, rr *runResult) {
+					if discModelled(c) {
+						df.Add(gDiscCase(c, rr), c.input(rr.Sched))
+					}
+				}
+				e.visit(c, rr, "replay", true)
+				e.emit = nil
+				if len(df.Cases) > 0 {
+					res.CorrFiles = append(res.CorrFiles, df.WriteTo(cfg.Out, "cases_disc"))
+				}
+			} else {
+				e.visit(c, rr, "replay", true)
+			}
 		case "lazy":
 			replayLazy(cfg, res, in)
 		case "reg":
